@@ -50,3 +50,7 @@ check("C10", "fault_enumeration", "Hypothesis message streams x exhaustive cut p
       "Generated streams of mixed message types (empty messages, older reader schemas) are written with SIZE_DELIMITED and read back; framing is compared with the spec varint prefix and read with the reference's parse_length_prefixed; then every truncation point of every stream is enumerated and each load must return the written message or raise.",
       "Streams are sampled, cut points of each sampled stream are exhaustive; older readers are synthesised with the public field API.",
       "DESIGN.md 3/C10")
+check("C17", "fault_enumeration", "fault injection (all truncation points, tag/length corruption, wire-type substitution, invalid tags, groups) + Hypothesis random bytes vs validity predicate and must-reject list",
+      "Reference encodings of generated values are damaged systematically: every truncation point of every sampled encoding, single-byte corruption of tag/length bytes, well-formed records with a substituted wire type before/after the genuine occurrence, field-number-0 and wire-type-6/7 tags, groups around known and unknown numbers; plus random byte strings. Each decode must raise or return a type-correct, re-encodable message; mid-record prefixes and invalid tags must raise; mismatches and groups must not alter known fields and mismatches must be kept as unknown fields. The reference's accept/reject decision is tabulated.",
+      "Encodings are sampled, truncation points per encoding are exhaustive; which mismatches must be kept as unknown is decided by the reference decoder.",
+      "DESIGN.md 3/C17")
